@@ -177,6 +177,9 @@ func verifyFunc(prog *ssa.Program, specs *SpecDB, fn *ssa.Function, opts verifyO
 		evaluated := map[*Clause]bool{}
 		defer func() {
 			for _, en := range sp.Ensures {
+				if sp.Assumed && !en.BodyOnly {
+					continue
+				}
 				if (hasTag(en.Tags, opts.property) || opts.property == "") && !evaluated[en] && len(f.rets) > 0 && rep.Status != "tool-error" {
 					rep.Status = "tool-error"
 					rep.Err = "ensures clause mentions an identifier that is unknown at every return: " + en.Src
@@ -193,6 +196,9 @@ func verifyFunc(prog *ssa.Program, specs *SpecDB, fn *ssa.Function, opts verifyO
 				if !hasTag(en.Tags, opts.property) && opts.property != "" {
 					continue
 				}
+				if sp.Assumed && !en.BodyOnly {
+					continue // trusted clause: not checked against the body
+				}
 				t, ok := evalClauseAt(ctx, en)
 				if !ok {
 					continue // mentions a local that is not yet declared on this return path
@@ -202,8 +208,8 @@ func verifyFunc(prog *ssa.Program, specs *SpecDB, fn *ssa.Function, opts verifyO
 			}
 			// frame
 			for _, h := range sortedKeys(r.st.heap) {
-				if sp.Partial {
-					break
+				if sp.Partial || sp.Assumed {
+					break // no frame claim (partial), or the frame is trusted, not checked against the body (assumed)
 				}
 				ff := f.frameFact(h, mods, entry, r.st, "alloc!0")
 				f.oblige("frame", fmt.Sprintf("%s:frame[%s]@ret%d", fname, h, r.idx+1), r.guard, ff, "only locations in the modifies clause change in heap "+h, nil, r.pos)
